@@ -46,11 +46,22 @@ VARIANTS = ['asis', 'perm', 'dict', 'repeat', 'series', 'dict0']
 
 
 def set_strategy(tier):
-    return st.fixed_dictionaries({
+    regular = st.fixed_dictionaries({
         'examples': G.examples_strategy(tier, allow_none=True),
         'opts': G.opts_strategy(with_pruning=False),
         'size': G.size_strategy(),
     })
+    # nothing to extract from: only nulls, or only blanks that the options
+    # discard (the empty multiset is a multiset too)
+    nothing = st.fixed_dictionaries({
+        'examples': st.lists(st.sampled_from([None, None, '', ' ', '\t ']),
+                             min_size=1, max_size=4),
+        'opts': G.opts_strategy(with_pruning=False).map(
+            lambda o: dict(o, remove_empties=True, strip=True)),
+        'size': G.size_strategy(),
+    })
+    return st.integers(0, 11).flatmap(
+        lambda k: nothing if k == 0 else regular)
 
 
 def step_strategy():
